@@ -208,6 +208,42 @@ func init() {
 		inf := app("fp.isInfinite", f.S)
 		return &Val{T: types.Typ[types.Bool], S: tAnd(inf, tOr(tEq(sign.S, "0"), tAnd(app(">", sign.S, "0"), app("fp.isPositive", f.S)), tAnd(app("<", sign.S, "0"), app("fp.isNegative", f.S))))}
 	}
+	// ---- reflect over an interface value that holds a slice (filter.GlobFilter.Apply): a reflect.Value is the
+	// interface value it was made from; Len/Index are refl.len/refl.index of that value, tied to the concrete slice for
+	// every slice-of-pointers type tag in the query (reflAxioms).
+	models["reflect.ValueOf"] = func(u *Unit, st *State, x *ast.CallExpr, _ *Val, fn *types.Func) *Val {
+		u.trusted["model: reflect.ValueOf/Kind/Len/Index/Interface on a slice held in an interface value"] = true
+		v := u.boxIface(st, u.eval(st, x.Args[0]))
+		u.reflDecls()
+		return &Val{T: fn.Type().(*types.Signature).Results().At(0).Type(), S: v.S}
+	}
+	models["(reflect.Value).Kind"] = func(u *Unit, st *State, x *ast.CallExpr, recv *Val, fn *types.Func) *Val {
+		u.reflDecls()
+		k := u.d.fun("reflkind", []string{SInt}, SInt)
+		return &Val{T: fn.Type().(*types.Signature).Results().At(0).Type(), S: tIte(tEq(recv.S, "0"), "0", app(k, app(u.typeofFn(), recv.S)))}
+	}
+	models["(reflect.Value).Len"] = func(u *Unit, st *State, x *ast.CallExpr, recv *Val, fn *types.Func) *Val {
+		u.reflDecls()
+		if u.safety {
+			k := u.d.fun("reflkind", []string{SInt}, SInt)
+			u.safetyObl(st, "reflect.Len", x, tAnd(app("distinct", recv.S, "0"), tEq(app(k, app(u.typeofFn(), recv.S)), "23")))
+		}
+		l := app(u.d.fun("refl.len", []string{SInt}, SInt), recv.S)
+		st.assumeFact(app(">=", l, "0"))
+		return &Val{T: types.Typ[types.Int], S: l}
+	}
+	models["(reflect.Value).Index"] = func(u *Unit, st *State, x *ast.CallExpr, recv *Val, fn *types.Func) *Val {
+		u.reflDecls()
+		i := u.eval(st, x.Args[0])
+		l := app(u.d.fun("refl.len", []string{SInt}, SInt), recv.S)
+		if u.safety {
+			u.safetyObl(st, "reflect.Index", x, tAnd(app("<=", "0", i.S), app("<", i.S, l)))
+		}
+		return &Val{T: fn.Type().(*types.Signature).Results().At(0).Type(), S: app(u.d.fun("refl.index", []string{SInt, SInt}, SInt), recv.S, i.S)}
+	}
+	models["(reflect.Value).Interface"] = func(u *Unit, st *State, x *ast.CallExpr, recv *Val, fn *types.Func) *Val {
+		return &Val{T: types.NewInterfaceType(nil, nil), S: recv.S}
+	}
 	models["strings.Index"] = func(u *Unit, st *State, x *ast.CallExpr, _ *Val, fn *types.Func) *Val {
 		a, b := u.eval(st, x.Args[0]), u.eval(st, x.Args[1])
 		r := app("str.indexof", a.S, b.S, "0")
@@ -1391,4 +1427,63 @@ func (u *Unit) splitVal(st *State, s, sep string, t types.Type) *Val {
 	v := &Val{T: t, Arr: app(fa, s, sep), Len: app(fl, s, sep), Nil: "false"}
 	st.assumeFact(app(">=", v.Len, "1"))
 	return v
+}
+
+// reflDecls declares what reflAxioms talks about.
+func (u *Unit) reflDecls() {
+	u.d.fun("reflkind", []string{SInt}, SInt)
+	u.d.fun("refl.len", []string{SInt}, SInt)
+	u.d.fun("refl.index", []string{SInt, SInt}, SInt)
+	u.typeofFn()
+	u.unboxFn(SInt)
+	u.slLen()
+	u.slArr(SInt)
+}
+
+// reflAxioms: for every type tag in the query, its reflect.Kind where the type's spelling determines it, and for
+// slices of references (whose elements box to themselves) refl.len / refl.index are the length and elements of the
+// slice held in the interface value.
+func (d *Decls) reflAxioms(tags []string) string {
+	if _, ok := d.set["reflkind"]; !ok {
+		return ""
+	}
+	var b strings.Builder
+	b.WriteString("(assert (forall ((x Int)) (! (>= (refl.len x) 0) :pattern ((refl.len x)))))\n")
+	for _, t := range tags {
+		name := strings.TrimPrefix(strings.Trim(t, "|"), "tag!")
+		kind := ""
+		switch {
+		case strings.HasPrefix(name, "[]"):
+			kind = "23"
+		case strings.HasPrefix(name, "map["):
+			kind = "21"
+		case strings.HasPrefix(name, "*"):
+			kind = "22"
+		case name == "string":
+			kind = "24"
+		case name == "bool":
+			kind = "1"
+		case name == "int":
+			kind = "2"
+		case name == "float64":
+			kind = "14"
+		}
+		if kind != "" {
+			b.WriteString(fmt.Sprintf("(assert (= (reflkind %s) %s))\n", t, kind))
+		}
+		if strings.HasPrefix(name, "[]*") || strings.HasPrefix(name, "[]map[") || name == "[]interface {}" || name == "[]any" {
+			b.WriteString(fmt.Sprintf("(assert (forall ((x Int)) (! (=> (= (typeof x) %s) (= (refl.len x) (sl.len (|unbox!Int| x)))) :pattern ((refl.len x)))))\n", t))
+			b.WriteString(fmt.Sprintf("(assert (forall ((x Int) (i Int)) (! (=> (= (typeof x) %s) (= (refl.index x i) (select (|sl.arr!Int| (|unbox!Int| x)) i))) :pattern ((refl.index x i)))))\n", t))
+			// a non-nil element of a []*T is a *T
+			if strings.HasPrefix(name, "[]*") {
+				et := quoteSym("tag!" + name[2:])
+				for _, t2 := range tags {
+					if t2 == et {
+						b.WriteString(fmt.Sprintf("(assert (forall ((x Int) (i Int)) (! (=> (and (= (typeof x) %s) (distinct (refl.index x i) 0)) (= (typeof (refl.index x i)) %s)) :pattern ((refl.index x i)))))\n", t, et))
+					}
+				}
+			}
+		}
+	}
+	return b.String()
 }
